@@ -1,9 +1,14 @@
-# Registry of checks: property id -> harness parts (package receiving the injected test, test name).
-MC = "model_checking"
-EX = "exploration"
-FE = "fault_enumeration"
+# Registry of checks: every /verif/harness/<ID>/registry.json describes the harness parts of one property:
+# {"level": "model_checking"|"exploration"|"fault_enumeration",
+#  "parts": [{"pkg": "<gossamer package dir receiving the injected test>", "run": "TestVerif_<ID>...",
+#             "race": false, "budget_s": {"quick": 600, "thorough": 2700}, "env": {...}}],
+#  "rewrites": [{"file": "<repo file>", "subst": [["old", "new"], ...]}],   (optional, regenerated from the working tree)
+#  "technique": "...", "level_text": "...", "level_note": "...", "design_ref": "..."}
+import json, os
 
-REGISTRY = {
-    "C01": {"level": MC, "parts": [{"pkg": "pkg/trie/inmemory", "run": "TestVerif_C01"}]},
-    "C02": {"level": MC, "parts": [{"pkg": "pkg/trie/inmemory", "run": "TestVerif_C02"}]},
-}
+_H = os.path.join(os.path.dirname(os.path.dirname(os.path.abspath(__file__))), "harness")
+REGISTRY = {}
+for d in sorted(os.listdir(_H)):
+    f = os.path.join(_H, d, "registry.json")
+    if os.path.exists(f):
+        REGISTRY[d] = json.load(open(f))
